@@ -45,8 +45,8 @@ func genC15(x *Ctx) *c15Scen {
 	maxN := 3000
 	maxWrites := 5
 	if x.Thorough() {
-		maxN = 60000
-		maxWrites = 12
+		maxN = 12000
+		maxWrites = 8
 	}
 	first := c15First[tp.G(len(c15First))]
 	if first != "none" {
